@@ -215,6 +215,17 @@ def run(argv):
         jobs.append((f"inner-edit-{a}-after-own-render",
                      {"steps": [alone[0], {"op": "render", "id": "A", "backend": BACKENDS[0], "tag": [a, "dense"]}, {"op": "query", "id": "A"}] + alone[1:]},
                      rng.choice(seeds)))
+    # (c3b) the network's own entry point with different solver options one after another in one process: each call renders what it
+    #       was asked for (`to_code(method="sparse")` after another network's `to_code(method="dense")`)
+    for a, b in (("default", "upper"), ("upper", "default")):
+        for (m1, m2) in ((BACKENDS[0], BACKENDS[1]), (BACKENDS[1], BACKENDS[0])):
+            tagx = [a, f"to_code-{m2[1]}"]
+            jobs.append((f"tocode-{a}-{m2[1]}-alone", {"steps": [{"op": "build", "id": "A", "desc": descs[a]},
+                                                                 {"op": "to_code", "id": "A", "backend": m2, "tag": tagx}]}, 0))
+            jobs.append((f"tocode-{a}-{m2[1]}-after-{b}-{m1[1]}",
+                         {"steps": [{"op": "build", "id": "B", "desc": descs[b]}, {"op": "to_code", "id": "B", "backend": m1, "tag": [b, f"to_code-{m1[1]}"]},
+                                    {"op": "build", "id": "A", "desc": descs[a]}, {"op": "to_code", "id": "A", "backend": m2, "tag": tagx}]},
+                         rng.choice(seeds)))
     # (c4) a species spelled two ways (the electron: `E` in KROME files, `e-` elsewhere); the reaction that brought the first spelling
     #      is removed again: what remains is described by the remaining lines alone
     two = [native(1, ["H+", "E"], ["H"]), native(2, ["H-", "H"], ["H2", "e-"]), native(3, ["H2", "e-"], ["H", "H", "e-"]),
